@@ -240,6 +240,28 @@ def run(ctx):
         cases.append(("mp-multi", ("clang", "mp", False), b"out: " + b" ".join(D) + b"\n" + b" ".join(DD) + b":\n", ([b"out"], DD)))
         nrej += 4
 
+    # several compiler runs appended to one file (or -MP output followed by more rules): phony rules for dependencies listed
+    # so far - with or without blanks before the end of the line, blank lines, CRLF - and then a rule that brings new ones
+    for _ in range(1500 if ctx.tier == "quick" else 30000):
+        D1 = dedup([bytes(rng.choice(b"abc/._") for _ in range(rng.randint(1, 6))) + b".h" for _ in range(rng.randint(1, 4))])
+        D2 = dedup([bytes(rng.choice(b"xyz/_") for _ in range(rng.randint(1, 6))) + b".hh" for _ in range(rng.randint(1, 3))])
+        D1 = [d for d in D1 if not d.startswith(b"/") and b"//" not in d]
+        D2 = [d for d in D2 if not d.startswith(b"/") and b"//" not in d]
+        if not D1 or not D2:
+            continue
+        eol = rng.choice((b"\n", b"\n", b"\r\n"))
+        ws = lambda: rng.choice((b"", b"", b" ", b"  ", b"   "))
+        txt = b"out:" + b"".join(b" " + d for d in D1) + ws() + eol
+        for d in rng.sample(D1, rng.randint(1, len(D1))):
+            if rng.random() < 0.3:
+                txt += ws() + eol
+            txt += d + b":" + ws() + eol
+        second = rng.choice((b"out", b"out", b"other.o"))
+        if rng.random() < 0.3:
+            D2.insert(rng.randint(0, len(D2)), rng.choice(D1))        # a known one among the new ones: fine, listed once
+        txt += second + b":" + b"".join(b" " + d for d in D2) + ws() + (eol if rng.random() < 0.9 else b"")
+        cases.append(("concat", ("clang", "concat", eol == b"\r\n"), txt, (dedup([b"out", second]), dedup(D1 + D2))))
+
     results, crashes = parse_many(b, [c[2] for c in cases])
     for se, content in crashes:
         sig = util.san_signature(se) or "crash"
